@@ -503,6 +503,13 @@ class C18Session(Session):
                         w.register(s)
                         self.group.append(g)
                         obj.add(s)
+                elif kind == "user_attr":
+                    # user state hung on the object (mutable): copies must get their own
+                    if not hasattr(obj, "userdata"):
+                        obj.userdata = {"notes": [1, 2], "arr": np.arange(3.0)}
+                    else:
+                        obj.userdata["notes"].append(op.get("value", 0))
+                        obj.userdata["arr"] += 1.0
                 elif kind == "tree_remove":
                     if hasattr(obj, "_children") and obj._children:
                         obj.remove(obj._children[op.get("which", 0) % len(obj._children)])
@@ -641,7 +648,7 @@ class Sim:
             "fail_variants": rng.random() < 0.7,
             "mutations": [m for m in ["path", "set_attr", "style_update", "style_update_dict", "style_assign_dict",
                                       "style_attr", "add_trace", "trace_edit", "inplace_getter", "tree_add",
-                                      "tree_remove", "children_styles"] if rng.random() < 0.7] or ["path"],
+                                      "tree_remove", "children_styles", "user_attr"] if rng.random() < 0.7] or ["path"],
         }
 
     def new_world_spec(self, rng, cfg):
